@@ -41,7 +41,7 @@ UNSUPPORTED = {
     ('dt_on', True): list(sg.UNBOUNDED_FUTURE),
     ('ct_off', False): list(sg.DISCRETE_ONLY),
     ('ct_on', False): list(sg.FUTURE_OPS) + list(sg.EVENT + sg.SHIFT_PAST),
-    ('ct_on', True): list(sg.UNBOUNDED_FUTURE) + ['until_b'] + list(sg.DISCRETE_ONLY),
+    ('ct_on', True): list(sg.UNBOUNDED_FUTURE) + ['until_b', 'unless_b'] + list(sg.DISCRETE_ONLY),
     ('dt_off', False): [],
 }
 
@@ -50,7 +50,7 @@ def supported_ops(kind, pastify):
     base = {'dt_off': set(sg.ALL_OPS), 'dt_on': set(common.PAST_OPS), 'ct_off': set(common.DENSE_OFFLINE_OPS),
             'ct_on': set(common.DENSE_PAST_OPS)}[kind]
     if pastify and kind == 'dt_on':
-        base |= {'eventually_b', 'always_b', 'until_b', 'next', 's_next'}
+        base |= {'eventually_b', 'always_b', 'until_b', 'unless_b', 'next', 's_next'}
     if pastify and kind == 'ct_on':
         base |= {'eventually_b', 'always_b'}
     if pastify:
@@ -92,7 +92,7 @@ def gen(rng, tier):
         elif op in sg.TBIN:
             lo, hi = sorted([rng.randint(0, 2), rng.randint(0, 3)])
             new = [op, lo, hi, sub, ['pred', '>=', ['var', vars_[0]], ['const', 0.0]]]
-        elif op in ('until', 'since'):
+        elif op in ('until', 'since', 'unless'):
             new = [op, sub, ['pred', '>=', ['var', vars_[0]], ['const', 0.0]]]
         else:
             new = [op, sub]
